@@ -1,7 +1,8 @@
 """C17 next to other writers' files: reads on a missing or existing JSON resource whose directory
 holds what a crashed or still-running writer leaves behind (the temporary file of an atomic save,
 complete or cut off; backup-style siblings) must leave the WHOLE directory as it was: no file
-created, none removed, renamed or rewritten (names, bytes, inode, mtime) — unbuffered and inside
+created, none removed, renamed or rewritten (names, bytes, inode, mtime), and issue no mutating file operation at all (process-wide tracer:
+open for writing, write, replace, rename, remove, truncate) — unbuffered and inside
 both kinds of buffered context, in both threading modes and write modes of the class."""
 import json
 import os
@@ -104,8 +105,16 @@ def run_case(ns, cname, is_dict, threads, wc, exists, leftover, ctx):
                 kw["write_concern"] = True
             x = cls(**kw)
             before = _snapshot(d)
+            tr = crash.Tracer()
+            tr.install()
 
             def judge(what):
+                muts = [l for l in crash.canonical(tr.events, [p])[0] if l != "encode"]
+                if muts and not msgs:
+                    msgs.append("%s(filename=<dir>/data.json%s), threading %s, file %s, directory also holds %s: %s issued mutating file "
+                                "operations %s (0 = data.json, 100+ = other paths)" % (
+                                    cname, ", write_concern=True" if wc else "", "on" if threads else "off",
+                                    "exists" if exists else "missing", sorted(files) or "nothing", what, muts[:6]))
                 now = _snapshot(d)
                 if now != before and not msgs:
                     created = sorted(set(now) - set(before))
@@ -135,6 +144,8 @@ def run_case(ns, cname, is_dict, threads, wc, exists, leftover, ctx):
                 with cls.buffer_backend():
                     reads(" inside buffer_backend()")
                 judge("leaving buffer_backend() after reads only")
+            tr.active = False
+            tr.uninstall()
             with open(out, "w") as f:
                 json.dump(msgs, f)
         code = crash.run_child(child)
